@@ -112,14 +112,12 @@ def render_token(tok, cfg):
             return ("jmp %sax" % r) if intel else ("jmp *%%%sax" % r)
         if t == "icall":
             return ("call %sax" % r) if intel else ("call *%%%sax" % r)
-        if t == "icallm":
+        if t in ("icallm", "ijmpm"):
+            mn = "call" if t == "icallm" else "jmp"
             if fam == "x64":
-                return ("call qword ptr [rip + %s]" % tok["to"]) if intel else ("call *%s(%%rip)" % tok["to"])
-            return "call *%s" % tok["to"]
-        if t == "ijmpm":
-            if fam == "x64":
-                return ("jmp qword ptr [rip + %s]" % tok["to"]) if intel else ("jmp *%s(%%rip)" % tok["to"])
-            return "jmp *%s" % tok["to"]
+                sym = tok["to"] + ("@GOTPCREL" if tok.get("got") else "")
+                return ("%s qword ptr [rip + %s]" % (mn, sym)) if intel else ("%s *%s(%%rip)" % (mn, sym))
+            return "%s *%s" % (mn, tok["to"])
         if t == "ref":
             a = tok.get("addend", 0)
             if fam == "x64" and tok.get("imm") is not None:
@@ -744,7 +742,9 @@ def check_operands(real, operands, cfg):
         elif fam in ("x64", "ia32") and c["ff"] == "ELF" and "DYN" in c["bt"] and tok["t"] in ("jmp", "jcc", "call") \
                 and isinstance(e, gtirb.SymAddrConst) and isinstance(e.symbol.referent, gtirb.ProxyBlock):
             want = {"PLT"}
-        if attrs != want and not (tok["t"] in ("icallm", "ijmpm")):
+        # (a memory-indirect transfer through a plain symbol gets whatever the branch inference gives; with an
+        # explicit @GOTPCREL the attributes are exactly those of the variant)
+        if attrs != want and not (tok["t"] in ("icallm", "ijmpm") and not tok.get("got")):
             issues.append(("operand-attributes:%s-want-%s" % (sorted(attrs), sorted(want)), o))
     for name, s in res.sections.items():
         for off in s.symbolic_expressions:
